@@ -41,6 +41,8 @@ func c08(r *Report) {
 	// (2)
 	c08Rollback(r, add)
 	c08LoadState(r)
+	c08NoSharedData(r)
+	c08ClockMonotone(r)
 	r.Own(OwnSpec{ID: "C08.own.loadState", Op: "call loadState", Sites: p.CallSites(Fn(dag, "state", "loadState"), true), Min: 2, Owners: map[string]string{
 		"(*network/dag.state).Add":       "OnRollback callback",
 		"(*network/dag.state).Start":     "start-up",
@@ -319,4 +321,76 @@ func callHasOption(fn *ssa.Function, call, opt Callee) bool {
 		}
 	}
 	return false
+}
+
+// c08NoSharedData: every node of the digest tree owns its data object. A parent's digest is built by mutating a copy of
+// the left child's (Clone) — if two nodes shared one object, adding to the parent would corrupt the child (and what is
+// persisted for that page).
+func c08NoSharedData(r *Report) {
+	p := r.P
+	rule := "ALIAS: a tree node's data is a fresh object (Clone()/New() result or the caller-supplied value), never another node's data object"
+	key := "C08.tree.no-shared-data"
+	sites := p.FieldStores("network/dag/tree", "node", "data")
+	n := 0
+	for _, s := range sites {
+		if p.FileClass(p.FuncPos(s.Fn)) != "prod" {
+			continue
+		}
+		n++
+		v := StripConv(s.Instr.(*ssa.Store).Val)
+		switch x := v.(type) {
+		case *ssa.Parameter:
+			continue
+		case *ssa.Call:
+			if x.Common().IsInvoke() && (x.Common().Method.Name() == "Clone" || x.Common().Method.Name() == "New") {
+				continue
+			}
+		case *ssa.UnOp:
+			if _, isParamCell := x.X.(*ssa.Alloc); isParamCell && x.Op == token.MUL {
+				continue // spilled parameter
+			}
+		}
+		if FieldV("node", "data").M(v) {
+			r.Bad(key, rule, p.Pos(s.Pos), p.FuncName(s.Fn)+" stores another node's data object ("+AccessPath(v, 0)+") into a node: two nodes would share one digest")
+			return
+		}
+		r.Undecided(key, rule, p.Pos(s.Pos), p.FuncName(s.Fn)+" stores "+AccessPath(v, 0)+" into node.data; origin not recognised")
+		return
+	}
+	r.Sites += n
+	if n < 4 {
+		r.Lost(key, rule, fmt.Sprintf("%d stores to node.data found", n))
+		return
+	}
+	r.OK(key, rule, "", fmt.Sprintf("%d stores: Clone()/New() results or parameters", n), true)
+}
+
+// c08ClockMonotone: the in-memory highest Lamport clock equals the maximum over the stored set: admission only ever
+// raises it (compare-and-swap behind `v < clock`); the only absolute write is the reload from storage.
+func c08ClockMonotone(r *Report) {
+	p := r.P
+	isHigh := func(cc *ssa.CallCommon) bool {
+		return len(cc.Args) > 0 && FieldV("state", "lamportClockHigh").M(&ssa.UnOp{Op: token.MUL, X: cc.Args[0]}) || len(cc.Args) > 0 && FieldPathEnds(&ssa.UnOp{Op: token.MUL, X: cc.Args[0]}, "lamportClockHigh")
+	}
+	store := Callee{Desc: "lamportClockHigh.Store", M: func(cc *ssa.CallCommon) bool {
+		f := cc.StaticCallee()
+		return f != nil && f.Name() == "Store" && f.Pkg != nil && f.Pkg.Pkg.Path() == "sync/atomic" && isHigh(cc)
+	}}
+	cas := Callee{Desc: "lamportClockHigh.CompareAndSwap", M: func(cc *ssa.CallCommon) bool {
+		f := cc.StaticCallee()
+		return f != nil && f.Name() == "CompareAndSwap" && f.Pkg != nil && f.Pkg.Pkg.Path() == "sync/atomic" && isHigh(cc)
+	}}
+	r.Own(OwnSpec{ID: "C08.clock.absolute-write-only-on-reload", Op: "overwrite the highest Lamport clock (Store)", Sites: p.CallSites(store, true), Min: 1,
+		Owners: map[string]string{"(*network/dag.state).loadState": "reload from storage (start-up and rollback)"}})
+	us := p.Func("network/dag", "state", "updateState")
+	load := CallV(Callee{Desc: "lamportClockHigh.Load", M: func(cc *ssa.CallCommon) bool {
+		f := cc.StaticCallee()
+		return f != nil && f.Name() == "Load" && f.Pkg != nil && f.Pkg.Pkg.Path() == "sync/atomic" && isHigh(cc)
+	}}, -1)
+	clock := CallV(Fn("network/dag", "Transaction", "Clock"), -1)
+	r.Gate(Gate{ID: "C08.clock.raised-only", Fn: us, Effect: CallEffect(cas), Check: CmpCheck("loaded value < transaction clock", token.LSS, load, clock, true)})
+	r.ArgIs("C08.clock.cas-from-loaded", us, cas, 0, load, 1)
+	r.ArgIs("C08.clock.cas-to-tx-clock", us, cas, 1, clock, 1)
+	r.Own(OwnSpec{ID: "C08.clock.raise-only-in-updateState", Op: "raise the highest Lamport clock (CompareAndSwap)", Sites: p.CallSites(cas, true), Min: 1,
+		Owners: map[string]string{"(*network/dag.state).updateState": "admission of a transaction"}})
 }
